@@ -143,8 +143,8 @@ CLAIMED = {
 PENDING = {}
 
 ENGINES = [
-    ("system", "spec/system", ["C04", "C07", "C14", "C16", "C17", "C18"],
-     "System.tla (one state machine over a simfile object and the text on disk: load/create, key and attribute edits with aliases, chart edits, save, re-open, sm_to_ssc, ssc_to_sm under a policy, reading notes and timing lists) + Trace_System.tla (stateful trace specification: one action per recorded event, many sessions per TLC run)"),
+    ("system", "spec/system", ["C04", "C07", "C08", "C09", "C14", "C16", "C17", "C18"],
+     "System.tla (one state machine over a simfile object and the text on disk: load/create, key and attribute edits with aliases, chart edits, save, re-open, sm_to_ssc, ssc_to_sm under a policy, reading / writing / counting notes, reading timing lists) + Trace_System.tla (stateful trace specification: one action per recorded event, many sessions per TLC run)"),
     ("discovery", "spec/discovery", ["C19", "C20"], "Discovery.tla (directory / pack views, asset answer sets, pack banner) + MC_Discovery + Trace_Discovery + order-forcing recording filesystem proxy"),
     ("timingsource", "spec/timingsource", ["C15"], "TimingSource.tla (source rule, all-or-nothing timing data, displayed BPM classes) + MC_TimingSource + Trace_TimingSource"),
     ("beat", "spec/beat", ["C14"], "Beat.tla (exact / snapped construction, Str3 closed form, arithmetic, decimal and event-list parsing) + MC_Beat + Trace_Beat"),
